@@ -1011,7 +1011,8 @@ return 1;""",
             # Explicit code exists to create object.
             # For example, NumPy intent(OUT) arguments as part of pre-call.
             # If post_call is None, the Object has already been created
-            build_format = "O"
+            # The new reference is given to the tuple.
+            build_format = "N"
             vargs = fmt.py_var
             blk0 = None
         else:
@@ -1474,10 +1475,14 @@ return 1;""",
                     ttt = self.intent_out(arg_typemap, intent_blk, fmt_arg)
                     if (intent == "inout" and intent_blk.object_created
                             and arg_typemap.PY_PyTypeObject
-                            and not intent_blk.parse_format):
+                            and not intent_blk.parse_format
+                            and intent_blk.arg_declare == []):
+                        # No C variable: the value lives in the object
+                        # that was passed in, which goes back.
                         # The object is borrowed from args.
-                        # Returned by itself it needs a new reference.
-                        ttt = ttt._replace(blk0=util.Scope(
+                        # Returned by itself it needs a new reference,
+                        # in a tuple "O" takes one.
+                        ttt = ttt._replace(format="O", blk0=util.Scope(
                             PyStmts,
                             post_call=[wformat("Py_INCREF({py_var});", fmt_arg)]))
                     build_tuples.append(ttt)
@@ -1689,7 +1694,7 @@ return 1;""",
             ttt0 = self.intent_out(result_typemap, result_blk, fmt_result)
             # Add result to front of return tuple.
             build_tuples.insert(0, ttt0)
-            if ttt0.format == "O":
+            if ttt0.format in ["O", "N"]:
                 # If an object has already been created,
                 # use another variable for the result.
                 fmt.PY_result = "SHPyResult"
